@@ -97,5 +97,80 @@ __CPROVER_ensures((RES_WELL && g_k <= g_n && g_k != g_s1 && g_k != g_s2) ==> (ui
 __CPROVER_ensures(!RES_WELL ==> (RV == NNG_EPROTO && g_st_calls == OLD(g_st_calls) && g_ver_calls == OLD(g_ver_calls) && conn->code == OLD(conn->code)))
 COVER(RV == 0) COVER(RV == NNG_ENOTSUP) COVER(RV == NNG_EPROTO && g_s2 < g_n)
 ;
+
+/* ======================================================================
+ * http_parse_header: field-line = field-name ":" OWS field-value OWS
+ * (RFC 9112 section 5), field-name non-empty.  Input: any C string of at most
+ * HL_CAP bytes, every byte value.
+ *   no ':'           => NNG_EPROTO, line untouched, nothing stored;
+ *   ':' first byte   => (empty name) refused, nothing stored;
+ *   otherwise        => the header store is called exactly once with
+ *                       name = bytes before the first ':' and value = the
+ *                       bytes after it without leading / trailing SP, HTAB
+ *                       (name and value bytes unchanged), and its result
+ *                       is the result.
+ * Ghosts (defining equations in the precondition): g_c first ':', g_v0 first
+ * non-OWS byte after it, g_v1 end of the trimmed value.
+ * ====================================================================== */
+static nng_err http_parse_header(nng_http *conn, void *line)
+__CPROVER_requires(__CPROVER_is_fresh(conn, sizeof(*conn)))
+__CPROVER_requires(STR_EXACT(line, g_n, HL_CAP, vp0))
+__CPROVER_requires(FIRST_AT(line, 0, g_n, g_c, ':', HL_CAP, vp1))
+__CPROVER_requires(g_c < g_n ==> (g_c < g_v0 && g_v0 <= g_n && !IS_OWS(LN[g_v0])))
+__CPROVER_requires(g_c < g_n ==> __CPROVER_forall { size_t vp2; (vp2 < HL_CAP) ==> ((g_c < vp2 && vp2 < g_v0) ==> IS_OWS(LN[vp2])) })
+__CPROVER_requires(g_c < g_n ==> (g_v0 <= g_v1 && g_v1 <= g_n && (g_v0 < g_n ==> (g_v0 < g_v1 && !IS_OWS(LN[g_v1 - 1])))))
+__CPROVER_requires(g_c < g_n ==> __CPROVER_forall { size_t vp3; (vp3 < HL_CAP) ==> ((g_v1 <= vp3 && vp3 < g_n) ==> IS_OWS(LN[vp3])) })
+__CPROVER_requires(g_k <= HL_CAP ==> g_b == (uint8_t) LN[g_k])
+__CPROVER_assigns(__CPROVER_object_whole(line))
+__CPROVER_assigns(conn->req.data, conn->res.data, conn->host, conn->host_header, g_add_calls, g_add_key, g_add_val, g_add_rv, g_hdr_err)
+__CPROVER_ensures(g_c == g_n ==> (RV == NNG_EPROTO && g_add_calls == OLD(g_add_calls)))
+__CPROVER_ensures((g_c == g_n && g_k <= HL_CAP) ==> (uint8_t) LN[g_k] == g_b)
+/* field-name = token: never empty */
+__CPROVER_ensures(g_c == 0 && g_n > 0 ==> (RV == NNG_EPROTO && g_add_calls == OLD(g_add_calls)))
+__CPROVER_ensures((0 < g_c && g_c < g_n) ==> (g_add_calls == OLD(g_add_calls) + 1 && g_add_key == LN && g_add_val == LN + g_v0 && RV == g_add_rv))
+__CPROVER_ensures((0 < g_c && g_c < g_n) ==> (LN[g_c] == 0 && LN[g_v1] == 0))
+__CPROVER_ensures((0 < g_c && g_c < g_n && g_k <= HL_CAP && g_k != g_c && !(g_v1 <= g_k && g_k < g_n)) ==> (uint8_t) LN[g_k] == g_b)
+__CPROVER_ensures(conn->req.data.parsed == OLD(conn->req.data.parsed) && conn->res.data.parsed == OLD(conn->res.data.parsed))
+COVER(RV == 0 && g_v1 < g_n && g_v0 > g_c + 1) COVER(RV == NNG_ENOMEM) COVER(RV == 0 && g_v0 == g_n)
+;
+
+/* ======================================================================
+ * http_req_parse_line: request-line = method SP request-target SP
+ * HTTP-version (RFC 9112 section 3), each part non-empty.  A server answers an
+ * invalid request-line with 400 and an unsupported version with 505; here
+ * that means: the status store is called with that code, the result is 0 and
+ * neither method nor target are stored.
+ *   status already >= 400 => nothing is touched, result 0;
+ *   not (1*method SP 1*target SP ...) => 400;
+ *   target refused by the URI canonifier => 400;
+ *   version not one nng knows => 505;
+ *   otherwise method = bytes before the first SP, target = the (canonified)
+ *   bytes between the first and second SP, handed over exactly; result =
+ *   result of the target store (NNG_ENOMEM possible).
+ * ====================================================================== */
+#define REQ_WELL (0 < g_s1 && g_s1 + 1 < g_s2 && g_s2 < g_n)
+#define REQ_NOSTORE (g_meth_calls == OLD(g_meth_calls) && g_uri_calls == OLD(g_uri_calls))
+#define REQ_STATUS(c) (g_st_calls == OLD(g_st_calls) + 1 && g_st_code == (c) && g_st_reason == NULL)
+static nng_err http_req_parse_line(nng_http *conn, void *line)
+__CPROVER_requires(__CPROVER_is_fresh(conn, sizeof(*conn)))
+TWO_SP_PRE
+__CPROVER_assigns(__CPROVER_object_whole(line), conn->code, conn->rsn, conn->vers, conn->meth, conn->uri, conn->ubuf)
+__CPROVER_assigns(g_st_calls, g_st_code, g_st_reason, g_ver_calls, g_ver_arg, g_meth_calls, g_meth_arg, g_uri_calls, g_uri_arg, g_uri_query, g_uri_rv, g_canon_calls, g_canon_rv)
+__CPROVER_ensures(OLD(conn->code) >= 400 ==> (RV == 0 && g_st_calls == OLD(g_st_calls) && REQ_NOSTORE && g_ver_calls == OLD(g_ver_calls) && conn->code == OLD(conn->code)))
+__CPROVER_ensures((OLD(conn->code) >= 400 && g_k <= HL_CAP) ==> (uint8_t) LN[g_k] == g_b)
+/* malformed request-line: 400, nothing stored */
+__CPROVER_ensures((OLD(conn->code) < 400 && !REQ_WELL) ==> (RV == 0 && REQ_STATUS(NNG_HTTP_STATUS_BAD_REQUEST) && REQ_NOSTORE))
+/* well-formed: canonifier called once on the target */
+__CPROVER_ensures((OLD(conn->code) < 400 && REQ_WELL) ==> (g_canon_calls == OLD(g_canon_calls) + 1 && LN[g_s1] == 0 && LN[g_s2] == 0))
+__CPROVER_ensures((OLD(conn->code) < 400 && REQ_WELL && g_canon_rv != 0) ==> (RV == 0 && REQ_STATUS(NNG_HTTP_STATUS_BAD_REQUEST) && REQ_NOSTORE))
+__CPROVER_ensures((OLD(conn->code) < 400 && REQ_WELL && g_canon_rv == 0 && !VERS_KNOWN(LN + g_s2 + 1)) ==> (RV == 0 && REQ_STATUS(NNG_HTTP_STATUS_HTTP_VERSION_NOT_SUPP) && REQ_NOSTORE))
+__CPROVER_ensures((OLD(conn->code) < 400 && REQ_WELL && g_canon_rv == 0 && VERS_KNOWN(LN + g_s2 + 1)) ==>
+    (g_st_calls == OLD(g_st_calls) && g_meth_calls == OLD(g_meth_calls) + 1 && g_meth_arg == LN &&
+     g_uri_calls == OLD(g_uri_calls) + 1 && g_uri_arg == LN + g_s1 + 1 && g_uri_query == NULL && RV == g_uri_rv &&
+     g_ver_calls == OLD(g_ver_calls) + 1 && g_ver_arg == LN + g_s2 + 1))
+/* method and version bytes are not rewritten */
+__CPROVER_ensures((OLD(conn->code) < 400 && REQ_WELL && g_k <= HL_CAP && (g_k < g_s1 || g_k > g_s2)) ==> (uint8_t) LN[g_k] == g_b)
+COVER(RV == NNG_ENOMEM) COVER(RV == 0 && g_uri_calls != OLD(g_uri_calls)) COVER(g_st_code == 505 && g_st_calls != OLD(g_st_calls))
+;
 /* clang-format on */
 #endif
